@@ -211,8 +211,25 @@ Fixpoint compile_template (t : list (bool * bytes)) : outcome bytes :=
     do b <- compile_template r; Ret (a ++ b)
   end.
 
-(* the `while 1:` loop of ContractAPI.match; None = the loop was left by `break` (return None).
-   Every iteration advances pc1, so S (length script) iterations suffice (AddressP.match_loop_fuel). *)
+(* the if/elif chain of the loop body: what one template instruction (opcode2, data2) does with one script
+   instruction (opcode1, data1); None = `break` *)
+Definition step_item (it : N * option bytes) (opcode1 : N) (data1 : option bytes) (r : captures) : option captures :=
+  let '(opcode2, data2) := it in
+  let l1 := opt_len data1 in
+  if data_is data2 (ph 0) then
+    if (l1 <? pubkey_len_min)%nat || (pubkey_len_max <? l1)%nat then None else Some (r ++ [(CPubkey, data1)])
+  else if data_is data2 (ph 1) then
+    if negb (l1 =? pubkeyhash_len)%nat then None else Some (r ++ [(CPubkeyHash, data1)])
+  else if data_is data2 (ph 2) then
+    if negb (existsb (Nat.eqb l1) segwit_lens) then None else Some (r ++ [(CSegwit, data1)])
+  else if data_is data2 (ph 3) then Some (r ++ [(CData, data1)])
+  else if data_is data2 (ph 4) then
+    if negb (l1 =? synthetic_key_len)%nat then None else Some (r ++ [(CSynth, data1)])
+  else if negb ((opcode1 =? opcode2) && opt_bytes_eq data1 data2) then None
+  else Some r.
+
+(* the `while 1:` loop of ContractAPI.match; Ret None = the loop was left by `break` (return None).
+   Every iteration advances pc1, so S (length script) iterations suffice (AddressP.match_loop_fuel_ok). *)
 Fixpoint match_loop (fuel : nat) (template script : bytes) (pc1 pc2 : nat) (r : captures)
   : outcome (option captures) :=
   match fuel with
@@ -227,20 +244,10 @@ Fixpoint match_loop (fuel : nat) (template script : bytes) (pc1 pc2 : nat) (r : 
       | OutOfFuel => OutOfFuel
       | Ret (opcode1, data1, pc1', _) =>
         do '(opcode2, data2, pc2', _) <- btc_get_opcode template pc2 false;
-        let l1 := opt_len data1 in
-        let continue r' := match_loop fuel' template script pc1' pc2' r' in
-        if data_is data2 (ph 0) then
-          if (l1 <? pubkey_len_min)%nat || (pubkey_len_max <? l1)%nat then Ret None
-          else continue (r ++ [(CPubkey, data1)])
-        else if data_is data2 (ph 1) then
-          if negb (l1 =? pubkeyhash_len)%nat then Ret None else continue (r ++ [(CPubkeyHash, data1)])
-        else if data_is data2 (ph 2) then
-          if negb (existsb (Nat.eqb l1) segwit_lens) then Ret None else continue (r ++ [(CSegwit, data1)])
-        else if data_is data2 (ph 3) then continue (r ++ [(CData, data1)])
-        else if data_is data2 (ph 4) then
-          if negb (l1 =? synthetic_key_len)%nat then Ret None else continue (r ++ [(CSynth, data1)])
-        else if negb ((opcode1 =? opcode2) && opt_bytes_eq data1 data2) then Ret None
-        else continue r
+        match step_item (opcode2, data2) opcode1 data1 r with
+        | None => Ret None
+        | Some r' => match_loop fuel' template script pc1' pc2' r'
+        end
       end
   end.
 
